@@ -3,7 +3,7 @@ import ThriftVerif.Lib.Determinism
 
 /- model driver for C07: one line per op
      R <content> <np> (<point name> <patch text>)*   → hex of the file content BuildResponse produces
-     D <path> <ni> (<k> <v>)* <nn> (<k> <v>)*         → hex of meta.Marshal(FileDescriptor) with the maps written in the given order
+     D <path> <ni> (<k> <v>)* <nn> (<k> <v>)*         → hex of meta.Marshal(FileDescriptor); the entries come in any order (the model sorts, as the code does)
      N <style> <n> (<name> <id>)*                     → name2id (sorted) and Get(id) per entry after Add in the given order
 -/
 namespace Driver.C07
@@ -39,7 +39,7 @@ def handleLine (line : String) : String :=
         match nn.toNat? with
         | some m =>
           match takePairs m rest' with
-          | some (ns, []) => VL.hexEncode (encFileDescriptor path inc ns)
+          | some (ns, []) => VL.hexEncode (encFileDescriptorSorted path inc ns)
           | _ => "bad-op"
         | none => "bad-op"
       | _ => "bad-op"
